@@ -350,6 +350,12 @@ PROPS["C01"]["functions"] += [_NGK]
 PROPS["C04"]["functions"] += [_TK, _NGK, "vectorizers/timed_token_cooccurrence_vectorizer.py::numba_build_skip_grams",
                               "vectorizers/multi_token_cooccurence_vectorizer.py::numba_build_multi_skip_grams"]
 
+# the EM iteration kernels (one pass over the corpus around em_update_matrix): memory safety + every precondition of em_update_matrix
+_EMK = [f + "::numba_em_cooccurrence_iteration" for f in ("vectorizers/token_cooccurrence_vectorizer.py", "vectorizers/ngram_token_cooccurence_vectorizer.py",
+                                                          "vectorizers/timed_token_cooccurrence_vectorizer.py")]
+for _p in ("C10", "C11"):
+    PROPS[_p]["functions"] += _EMK
+
 # the lemma library (induction proofs of the prefix-sum / keyed-sum lemmas) is part of every check whose contracts invoke a lemma
 import contracts as _C
 _ALLC, _ = _C.load_all()
@@ -370,7 +376,8 @@ _NOTES = {
     "C06": "ngrams_of (both behaviours), sum_coo_entries and build_skip_grams are under contract; the estimator glue (dictionary building, matrix assembly, `+`) is structural/bounded.",
     "C07": "The optimiser is external (pynndescent.optimal_transport); only the read-out of the plan from the flow vector is proved, relative to the stated arc_id contract. "
            "Feasibility and optimality are bounded (HiGHS reference).",
-    "C11": "em_update_matrix is under contract (memory safety, support, frame); the EM iteration drivers, the normalisation and the epsilon thresholding are bounded.",
+    "C11": "em_update_matrix and the three EM iteration kernels around it are under contract (memory safety, support, frame, every call-site precondition); the "
+           "normalisation, the epsilon thresholding and the values of the refined matrix are bounded.",
     "C12": "Row-independence of the estimators is bounded; deductive: the row partitions (loops AND their block/chunk counts), LZ / sliding-window / row-denoise kernels' frames.",
     "C13": "Side-effect freedom of the estimators is structural (no-mutator, copy=True, scratch-file removal calls) + bounded snapshots; frames of the helpers are proved "
            "(a frame obligation is generated for every parameter of every function under contract).",
